@@ -24,6 +24,14 @@ Record extends (s s' : state) : Prop := {
 Definition pure_cb (P : list fentry) (host : list str) (cbv : value) (cb : list value -> value) : Prop :=
   forall args s, exists s', runs P host (TkCallVal cbv args) s (ok [cb args] empty_env s') /\ extends s s'.
 
+(* the same, demanded only for the argument lists that satisfy A (a key function is only ever
+   called with two arguments) *)
+Definition pure_cb_on (P : list fentry) (host : list str) (A : list value -> Prop) (cbv : value)
+           (cb : list value -> value) : Prop :=
+  forall args s, A args ->
+    exists s', runs P host (TkCallVal cbv args) s (ok [cb args] empty_env s') /\ extends s s'.
+Definition two_args (args : list value) : Prop := length args = 2.
+
 (* tables as the language builds them: distinct keys, each a proper key value *)
 Definition key_ok (k : tkey) : Prop := to_key (of_key k) = Some k.
 Definition wf_table (tb : otable value) : Prop := NoDup (map fst tb) /\ Forall key_ok (map fst tb).
